@@ -41,7 +41,9 @@ ASSUMPTIONS = [
 def _kwargs(case):
     kw = M.build_metricframe_kwargs(case)
     kw["n_boot"] = case["n_boot"]
-    kw["ci_quantiles"] = list(case["quantiles"])
+    qk = case.get("q_kind", "list")
+    kw["ci_quantiles"] = (list(case["quantiles"]) if qk == "list" else tuple(case["quantiles"]) if qk == "tuple"
+                          else np.asarray(case["quantiles"], dtype=float))
     kw["random_state"] = case["seed"]
     return kw
 
@@ -359,6 +361,7 @@ def _case(draw):
     k = draw(st.integers(1, 4))
     qs = draw(st.lists(st.sampled_from([0.02, 0.1, 0.25, 0.5, 0.75, 0.9, 0.98, 0.333]), min_size=k, max_size=k, unique=True))
     c["quantiles"] = qs
+    c["q_kind"] = draw(st.sampled_from(["list", "list", "tuple", "ndarray"]))
     c["seed"] = draw(st.integers(0, 2**31 - 1))
     return c
 
